@@ -2255,8 +2255,17 @@ def remove_dead_ifs(source: str) -> str:
                 # We skip adding it to ifs, so that will be the result.
 
             if any_if_always_false:
+                # Nothing is ever produced. What comes before the condition is still evaluated.
                 any_comprehension_modified = True
-                continue
+                generators = []
+                before = node.generators[: node.generators.index(comprehension)]
+                evaluated = [generator.iter for generator in (*before, comprehension)]
+                evaluated += [earlier_if for generator in before for earlier_if in generator.ifs]
+                evaluated += ifs
+                safe_callables = parsing.safe_callable_names(root)
+                if any(core.has_side_effect(child, safe_callables) for child in evaluated):
+                    any_comprehension_modified = False
+                break
 
             if len(ifs) < len(comprehension.ifs):
                 replacement = ast.comprehension(
